@@ -383,6 +383,49 @@ fn string_laws(s: &str) -> Vec<Law> {
     laws
 }
 
+/// The string laws at selected positions only, for long strings.
+fn long_string_laws(s: &str) -> Vec<Law> {
+    let ch = chars_of(s);
+    let n = ch.len();
+    let mut laws = vec![];
+    let law = |name: &'static str, program: &str, expected: Option<RV>| Law { name, program: program.to_string(), expected };
+    let me = RV::Str(s.to_string());
+    laws.push(law("str-len", "len(s)", Some(num(n))));
+    laws.push(law("str-len-spread", "len([...s])", Some(num(n))));
+    laws.push(law("str-spread-rejoin", "join([...s], \"\") == s", Some(RV::Bool(true))));
+    laws.push(law("str-head", "head(s)", Some(ch.first().cloned().unwrap_or(RV::s("")))));
+    laws.push(law("str-tail-len", "len(tail(s))", Some(num(n.saturating_sub(1)))));
+    laws.push(law("str-head-tail-rebuild", "head(s) + tail(s) == s", Some(RV::Bool(true))));
+    let ni = n as i64;
+    for i in [0, 1, 2, ni / 2, ni - 2, ni - 1, ni, ni + 1, -1, -2, -ni, -ni - 1] {
+        laws.push(Law { name: "str-index", program: format!("s[{}]", if i < 0 { format!("(-{})", -i) } else { i.to_string() }), expected: Some(index_ref(&ch, i)) });
+    }
+    let cuts: Vec<usize> = vec![0, 1, 2, n / 3, n / 2, n - 2, n - 1, n];
+    for &a in &cuts {
+        for &b in cuts.iter().filter(|b| **b >= a) {
+            let sub: String = s.chars().skip(a).take(b - a).collect();
+            laws.push(Law { name: "str-slice", program: format!("slice(s, {}, {}) == {}", a, b, str_src(&sub)), expected: Some(RV::Bool(true)) });
+            if b - a <= 40 && b > a {
+                laws.push(Law { name: "str-includes-sub", program: format!("includes(s, {})", str_src(&sub)), expected: Some(RV::Bool(true)) });
+            }
+        }
+    }
+    laws.push(law("str-slice-rebuild", &format!("slice(s, 0, {}) + slice(s, {}, {}) == s", n / 2, n / 2, n), Some(RV::Bool(true))));
+    for d in [",", "a", "\u{e9}", "\u{1f600}", "ab"] {
+        laws.push(Law { name: "str-split-join", program: format!("join(split(s, {}), {}) == s", str_src(d), str_src(d)), expected: Some(RV::Bool(true)) });
+        laws.push(Law { name: "str-split", program: format!("len(split(s, {}))", str_src(d)), expected: Some(num(s.split(d).count())) });
+    }
+    laws.push(law("str-includes-foreign", "includes(s, \"\u{2603}\")", Some(RV::Bool(false))));
+    let removed: String = s.chars().filter(|x| *x != 'a').collect();
+    laws.push(Law { name: "str-replace", program: format!("replace(s, \"a\", \"\") == {}", str_src(&removed)), expected: Some(RV::Bool(true)) });
+    laws.push(law("str-case-len", "[len(uppercase(s)), len(lowercase(s))]", Some(RV::List(vec![num(n), num(n)]))));
+    laws.push(Law { name: "str-uppercase", program: format!("uppercase(s) == {}", str_src(&s.to_uppercase())), expected: Some(RV::Bool(true)) });
+    laws.push(Law { name: "str-trim", program: format!("trim(\"  \" + s + \"  \") == {}", str_src(s.trim())), expected: Some(RV::Bool(true)) });
+    laws.push(law("str-to_string", "to_string(s) == s", Some(RV::Bool(true))));
+    let _ = me;
+    laws
+}
+
 fn record_laws(r: &[(String, RV)]) -> Vec<Law> {
     let mut laws = vec![];
     let law = |name: &'static str, program: String, expected: Option<RV>| Law { name, program, expected };
@@ -570,6 +613,36 @@ pub fn run(ctx: &Ctx, replay: Option<&J>) -> i32 {
         let ch: Vec<RV> = s.chars().map(|c| RV::Str(c.to_string())).collect();
         check_fractional_index(ctx, &mut sess, &ch, "s", &subj);
     });
+    // ---- size ladder: long strings built by a short expression
+    {
+        let sizes: &[usize] = if thorough { &[100, 255, 256, 257, 1000, 1023, 1024, 1025, 4096, 4097, 65536, 65537] } else { &[257, 1025] };
+        let pattern: Vec<char> = "ab,\u{e9}\u{1f600} x".chars().collect();
+        let mut jobs: Vec<(String, String)> = vec![];
+        for &n in sizes {
+            let text: String = (0..n).map(|i| pattern[i % pattern.len()]).collect();
+            // subject: the pattern repeated and cut to n characters
+            let reps = n / pattern.len() + 1;
+            jobs.push((format!("s = slice(join(range({}) via (i => {}), \"\"), 0, {})", reps, str_src(&pattern.iter().collect::<String>()), n), text));
+        }
+        par_for_ctx(ctx, jobs.len(), |i| {
+            let (subj, text) = &jobs[i];
+            let mut sess = Session::new();
+            let o = sess.run(subj);
+            if !o.is_ok() {
+                ctx.machinery_error(format!("cannot bind subject {}: {:?}", subj, o));
+                return;
+            }
+            // the subject itself must be the intended text (it is built with join / slice)
+            let chk = sess.run(&format!("s == {}", str_src(text)));
+            if chk != Outcome::Ok("true".into()) {
+                ctx.violation(Violation { kind: "str-build".into(), class: "non-ascii-string".into(), input: subj.clone(), expected: "the pattern repeated and cut".into(), observed: chk.cmp_key(), case: json!({"subject": subj, "program": "len(s)"}) });
+                return;
+            }
+            ctx.nontrivial(subj);
+            ctx.outcome("size-ladder-string");
+            run_laws(ctx, &mut sess, subj, long_string_laws(text));
+        });
+    }
     // ---- records
     let keys = ["a", "b", "a b", ""];
     let vals = vec![RV::Num(1.0), RV::Null, RV::List(vec![RV::Num(2.0)])];
